@@ -339,6 +339,7 @@ func C11(p *core.Program, r *core.Report) {
 	checkNilResetFields(p, r, "pkg/cla/tcpclv4")
 	// a failed Send must not leave its feedback channel registered: the receive loop would block on it
 	checkRegisteredChannelsRemoved(p, r)
+	checkTransferIDAllocation(p, r)
 	// "segments none larger than the negotiated size": the size the sender segments with is the negotiated one
 	checkSegmentMruChain(p, r)
 	r.Analysed["error_returning_functions_checked"] = checkErrorsNotSwallowedIn(p, r, "pkg/cla/tcpclv4", utilsPkg, msgsPkg, "pkg/cla/tcpclv4/internal/stages")
@@ -468,4 +469,47 @@ func fieldLoadOf(v ssa.Value) *ssa.UnOp {
 		return src
 	}
 	return nil
+}
+
+// checkTransferIDAllocation: "this also holds while both sides send several bundles concurrently": two Sends on one
+// session must never get the same Transfer ID (their acknowledgements are routed by it). The counter is therefore
+// advanced and read in ONE atomic operation: every access to TransferManager.outNextId is an atomic.AddUint64, and the
+// ID a transfer is created with derives from that call's result (a Load followed by a later Add hands one ID out twice).
+func checkTransferIDAllocation(p *core.Program, r *core.Report) {
+	n := 0
+	var adds []ssa.Value
+	for _, fn := range p.RepoFuncs() {
+		if fn.Pkg != p.Pkg(utilsPkg) || fn.Blocks == nil {
+			continue
+		}
+		core.EachInstr(fn, func(in ssa.Instruction) {
+			fa, ok := in.(*ssa.FieldAddr)
+			if !ok || !core.IsField(fa, utilsPkg, "TransferManager", "outNextId") {
+				return
+			}
+			for _, ref := range *fa.Referrers() {
+				n++
+				c, isCall := ref.(*ssa.Call)
+				okAdd := isCall && core.CalleeName(c) == "sync/atomic.AddUint64"
+				if okAdd {
+					adds = append(adds, c)
+				}
+				r.Check(okAdd, "transfer-id/"+fname(fn)+"/atomic-add-only", "the Transfer ID counter is only ever accessed by atomic.AddUint64 (advance and read in one step)", p.Pos(ref.Pos()), "", "the counter is read or written separately from its increment: two concurrent Sends can obtain the same Transfer ID, one's acknowledgement completes the other")
+			}
+		})
+	}
+	r.Min("accesses to TransferManager.outNextId", 1)
+	r.Count("accesses to TransferManager.outNextId", n)
+	send := p.Func(utilsPkg, "TransferManager", "Send")
+	for _, c := range core.CallsTo(send, utilsPkg+".NewBundleOutgoingTransfer") {
+		okID := core.DependsOn(core.Arg(c, 0), func(v ssa.Value) bool {
+			for _, a := range adds {
+				if v == a {
+					return true
+				}
+			}
+			return false
+		})
+		r.Check(okID, "transfer-id/"+fname(send)+"/from-the-increment", "the ID a transfer is created with is the result of the atomic increment", p.Pos(c.Pos()), "", "the transfer's ID does not derive from atomic.AddUint64's result")
+	}
 }
